@@ -593,10 +593,7 @@ def run(ctx):
             lines.append(model_line(job["folders"], damage, trace_idx))
             got = val["line"]
             if len(damage) > 1:
-                # two failing workers: which one is first in the queue is the schedule's choice below write granularity
-                r = got.split("raise=")[1].split()[0]
-                if r in [str(f + 1) for f in damage]:
-                    got = got.replace("raise=" + r, "raise=ANY")
+                # two failing workers: the error of the first folder in archive order is the one raised (model: leastOf)
                 classes.append("two-damaged")
             else:
                 classes.append(vlabel.split("@")[0])
@@ -617,9 +614,6 @@ def run(ctx):
         def translate(i, m):
             folders = jobs_ok[i]["folders"]
             out = fill_missing(folders, m)
-            if classes[i] == "two-damaged":
-                r = out.split("raise=")[1].split()[0]
-                out = out.replace("raise=" + r, "raise=ANY")
             return out
         jobs_ok = [j for j, (st, _) in zip(jobs, res) if st == "ok"]
         ctx.correspond_model("conc.threads", lines, impl, translate, classes)
@@ -654,10 +648,6 @@ def run(ctx):
                 ctx.fail("C13:%s_%s" % (mode, st), "extraction did not complete: %s" % str(val)[:300], conf)
                 continue
             got = val["line"]
-            if len(damage) > 1:
-                r = got.split("raise=")[1].split()[0]
-                if r in [str(f + 1) for f in damage]:
-                    got = got.replace("raise=" + r, "raise=ANY")
             flat = [fi for fi in perm for _ in range(len(job["folders"][fi]))]
             lines.append(model_line(job["folders"], damage, flat))
             impl.append(got)
@@ -677,9 +667,6 @@ def run(ctx):
 
         def translate2(i, m):
             out = fill_missing(ok_jobs[i]["folders"], m)
-            if classes[i] == "two-damaged":
-                r = out.split("raise=")[1].split()[0]
-                out = out.replace("raise=" + r, "raise=ANY")
             return out
         ctx.correspond_model("conc.staggered", lines, impl, translate2, classes)
 
